@@ -508,6 +508,9 @@ func (s *startupCoordinator) authenticateHandshake(ctx context.Context, authFram
 			}
 			return nil
 		case *authChallengeFrame:
+			if challenger == nil {
+				return fmt.Errorf("gocql: received an authentication challenge, but the authenticator for %q does not answer challenges", authFrame.class)
+			}
 			resp, challenger, err = challenger.Challenge(v.data)
 			if err != nil {
 				return err
